@@ -101,9 +101,10 @@ func (t *AppendOnlyTree) initCache(tx dbtypes.Txer) error {
 		}
 		return err
 	}
-	t.lastIndex = int64(lastRoot.Index)
+	// lastIndex is assigned together with the cache, once the whole branch has been read: if reading a node fails,
+	// the next AddLeaf must rebuild the cache again instead of trusting a half-built one
+	index := int64(lastRoot.Index)
 	currentNodeHash := lastRoot.Hash
-	index := t.lastIndex
 	// It starts in height-1 because 0 is the level of the leafs
 	for h := int(types.DefaultHeight - 1); h >= 0; h-- {
 		currentNode, err := t.getRHTNode(tx, currentNodeHash)
@@ -129,6 +130,7 @@ func (t *AppendOnlyTree) initCache(tx dbtypes.Txer) error {
 		siblings[i], siblings[j] = siblings[j], siblings[i]
 	}
 
+	t.lastIndex = index
 	t.lastLeftCache = siblings
 	return nil
 }
